@@ -2172,6 +2172,7 @@ func main() {
 	run.Assume("a time value within 24 h of the wall clock is taken to be a generated timestamp (every explicit time of the grammar is years away); generated values are compared only for 'all rows of a record share one value' and their partition hour is not compared")
 	run.Assume("values at null positions are not compared (they are not stored); NaN equals NaN; other floats compared bit-wise; rows of a stored Parquet file compared as a multiset")
 	run.Assume("decimal columns not configured (the handler disables the fast path when they are); WAL disabled - the raw payload handed to the WAL is compared instead; snappy compression, default sort keys")
+	run.Assume("oversized (0xFFFFFFFF) headers are generated for arrays, maps and strings on a small structural set of bases, one case at a time (each makes the generic decoder allocate its 1M-element cap); bin32/ext32 oversize headers are NOT generated because the msgpack fork allocates the claimed byte length up front (a 10-byte body with bin32 len 0xFFFFFFFF costs a 4 GiB allocation in either mode - a C04 matter, not a typed/generic difference); 16/32-bit array/map codes are not in the substitution set for the same cost reason")
 	run.Assume("bodies longer than 40 B are not byte-mutated; arrays longer than 3, more than 3 columns / 4 top-level keys, nesting deeper than 2 are outside the enumeration")
 	fmt.Printf("C02: %d tree payloads (%d took the fast path), %d mutated bodies from %d bases, %d stored-Parquet comparisons, %d distinct outcomes, %d raw failures -> %d classes\n",
 		treeEvals, typedHitsDistinct, mutEvals, mutBases, atomic.LoadInt64(&deepEvals), len(outcomes), len(fails), len(classes))
